@@ -78,6 +78,12 @@ def run(ctx) -> Result:
     # correspondence cannot cut it short)
     op.campaign(ctx, res, "C05", [dict(p, line_yield=True) for p in programs(ctx, 60 if not ctx.thorough else 400)], judge,
                 n_random=2, do_lockstep=False, tag="line")
+    # directed: a removing call from a second thread while events of the watch are being dispatched, many line-level schedules
+    directed = [{"nw": 1, "nh": 2, "kind": "scripted", "scripts": {"0": script}, "line_yield": True,
+                 "threads": [[["schedule", 0, 0], ["schedule", 1, 0], ["start"]], [["pause"], call]]}
+                for script in ([0, 1], [0, 1, 2, 3])
+                for call in (["remove", 0, 0], ["remove", 1, 0], ["unschedule", 0], ["unschedule_all"])]
+    op.campaign(ctx, res, "C05", directed, judge, n_random=12 if not ctx.thorough else 60, do_lockstep=False, tag="line-directed")
     op.campaign(ctx, res, "C05", programs(ctx, 300 if not ctx.thorough else 1200), judge, n_random=3)
     if ctx.thorough:
         op.campaign(ctx, res, "C05", programs(ctx, 25, small=True), judge, explore_runs=400, tag="x")
